@@ -126,8 +126,12 @@ fn main() {
             let mv = pd_moves(d, true);
             run.sample(json!({"from": d.pd(), "diagram": name, "moves": mv.iter().take(3).map(|(m, d2)| json!({"move": m, "to": d2.pd()})).collect::<Vec<_>>()}));
         }
-        for (mv, d2) in pd_moves(d, true) {
-            cx.all_rings_edge(name, d, &mv, &d2, light);
+        let mut moves = pd_moves(d, true);
+        if d.n <= 2 || th {
+            moves.extend(pd_r2_moves(d));
+        }
+        for (mv, d2) in moves {
+            cx.all_rings_edge(name, d, &mv, &d2, light || d2.n >= 4);
             if th && d.n <= 2 {
                 // depth 2
                 for (mv2, d3) in pd_moves(&d2, d.n <= 1) {
@@ -203,7 +207,7 @@ fn main() {
         "traces_validated_against_impl": run.get("evaluations"),
         "evaluations": run.get("evaluations"),
         "distinct_nontrivial": run.get("move_edges"),
-        "rule": "move graph: vertices = all planar diagrams with <= 3 crossings and all braid closures up to the stated word lengths; edges = every single R1 (4 kinks on every edge), crossing reorder, reversal of all orientations, edge renumbering (PD level), and every R2 insertion, far commutation, R3 in all valid sign patterns, conjugation and Markov stabilisation (braid level); thorough adds depth-2 paths; each edge compares the library's bigraded tables of both endpoints over i64, Ratio<i64>, FF2, FF<3> (reduced too for knots)",
+        "rule": "move graph: vertices = all planar diagrams with <= 3 crossings and all braid closures up to the stated word lengths; edges = every single R1 (4 kinks on every edge), every PD-level R2 (parallel and antiparallel, any two edges of a common face; diagrams with <= 2 crossings, thorough <= 3), crossing reorder, reversal of all orientations, edge renumbering (PD level), and every R2 insertion, far commutation, R3 in all valid sign patterns, conjugation and Markov stabilisation (braid level); thorough adds depth-2 paths; each edge compares the library's bigraded tables of both endpoints over i64, Ratio<i64>, FF2, FF<3> (reduced too for knots)",
         "mirror_checks": run.get("mirror_checks"),
         "exhaustive": true,
     });
@@ -211,7 +215,7 @@ fn main() {
         coverage,
         &[
             "the move generators are validated independently: every generated move preserves the reference Kauffman state sum (C04) and the reference cube homology (unit tests of vcore::reflink)",
-            "R2 and R3 are exercised through braid words (every R2/R3 between two parallel strands / three strands of a braid), not on arbitrary faces of a PD diagram",
+            "R3 is exercised through braid words only (all valid sign patterns), not on arbitrary triangles of a PD diagram; R2 both on braid words and at the PD level",
         ],
     );
 }
